@@ -74,12 +74,12 @@ def _prep(cases, nq):
     for m in MODES:
       e = np.array([_val(v) for v in c[m]])
       E[m][i, :k] = e; E[m][i, k:] = e[0]
-    # rounding budget: exact at the nodes (integer data, weights 0/1); elsewhere 16 ulp of
-    # max|fp| * (|1 - w| + |w|), w = distance from the range in units of the end cell
+    # rounding budget: 16 ulp of max|fp| * (|1 - w| + |w|), w = distance from the range in units
+    # of the end cell.  (Not exact even at nodes: XLA contracts 1 - delta * (1/dx) into an fma,
+    # which leaves 2^-54 instead of 0 for dx = 3.)
     xp = XP[i]
     w = np.maximum(0, np.maximum((xp[0] - X[i]) / (xp[1] - xp[0]), (X[i] - xp[-1]) / (xp[-1] - xp[-2])))
     T[i] = 16 * EPS * np.max(np.abs(FP[i])) * (1 + 2 * w)
-    T[i, np.isin(X[i], xp)] = 0.0
   return X, XP, FP, E, V, T
 
 
@@ -232,6 +232,12 @@ def _cmp_field(out, case, name, got, exp, asserted, tol, lenient=None):
   return int(asserted.sum())
 
 
+@functools.lru_cache(None)
+def _linear_fn():
+  from dinosaur import vertical_interpolation as vi
+  return vi.vectorize_vertical_interpolation(vi.linear_interp_with_linear_extrap)
+
+
 def _one_column_case(c):
   import numpy as np
   jax, jnp = _jax()
@@ -259,7 +265,7 @@ def _one_column_case(c):
   e1 = {f: _field(c['r1'][f]) for f in ('affine', 'pattern')}
   scale = max(float(np.max(np.abs(v))) for v in src.values())
   tol1, tol2 = 64 * EPS * 3 * scale, 64 * EPS * 9 * scale
-  with jax.disable_jit(c.get('nojit', True)):
+  with jax.disable_jit(c.get('nojit', False)):
     if scen == 'hybrid':
       hyb = vi.HybridCoordinates(np.array(c['hy']['a'], dtype=np.float64),
                                  np.array(c['hy']['b'], dtype=np.float64) / c['hden'])
@@ -267,8 +273,9 @@ def _one_column_case(c):
       got = vi.interp_hybrid_to_sigma({k: jnp.asarray(v) for k, v in src.items()}, hyb, sigma, jnp.asarray(sp))
       for f in src:
         _cmp_field(out, c, f'hybrid_to_sigma:{f}', got[f], e1[f][0], e1[f][1], tol1, lenient=edge)
-      got = vi.BilinearRegridder(hyb, sigma)(jnp.asarray(src['pattern']), jnp.asarray(sp))
-      _cmp_field(out, c, 'hybrid_to_sigma:BilinearRegridder', got, e1['pattern'][0], e1['pattern'][1], tol1, lenient=edge)
+      if c.get('extra', True):      # the class front end of the same routine
+        got = vi.BilinearRegridder(hyb, sigma)(jnp.asarray(src['pattern']), jnp.asarray(sp))
+        _cmp_field(out, c, 'hybrid_to_sigma:BilinearRegridder', got, e1['pattern'][0], e1['pattern'][1], tol1, lenient=edge)
       return out
     pcoord = vi.PressureCoordinates(np.array(c['pl'], dtype=np.float64))
     first, second = ((vi.interp_pressure_to_sigma, vi.interp_sigma_to_pressure) if scen == 'p2s'
@@ -286,11 +293,11 @@ def _one_column_case(c):
     for f in src:
       e2, m2 = _field(c['r2'][f])
       _cmp_field(out, c, f'roundtrip:{names[0]}:{names[1]}:{f}', got2[f], e2, m2, tol2)
-    # a caller-supplied interpolation function goes through the same vectorisation
-    lin = vi.vectorize_vertical_interpolation(vi.linear_interp_with_linear_extrap)
-    got3 = first({'affine': fields['affine']}, pcoord, sigma, jnp.asarray(sp), lin)
-    el = _field(c['lin1'])
-    _cmp_field(out, c, f'{names[0]}:linear_extrap_fn', got3['affine'], el[0], el[1], tol1 * 4)
+    if c.get('extra', True):
+      # a caller-supplied interpolation function goes through the same vectorisation
+      got3 = first({'affine': fields['affine']}, pcoord, sigma, jnp.asarray(sp), _linear_fn())
+      el = _field(c['lin1'])
+      _cmp_field(out, c, f'{names[0]}:linear_extrap_fn', got3['affine'], el[0], el[1], tol1 * 4)
   return out
 
 
@@ -326,9 +333,10 @@ def _one_horiz_case(c):
     if not np.all(np.abs(got[0] - 2.5) <= 4 * EPS * 2.5):
       i = np.unravel_index(np.argmax(np.abs(got[0] - 2.5)), tshape)
       bad(f'{name}:constant', f'constant 2.5 not reproduced at {tuple(map(int, i))}: {got[0][i]!r}')
-    got2 = np.asarray(cls(s, t)(jnp.asarray(label)))             # no leading axis
-    if got2.shape != tshape or not np.array_equal(got2, got[1], equal_nan=True):
-      bad(f'{name}:leading_axis', 'result with a leading axis differs from the 2-d call')
+    if c.get('extra', True):
+      got2 = np.asarray(cls(s, t)(jnp.asarray(label)))             # no leading axis
+      if got2.shape != tshape or not np.array_equal(got2, got[1], equal_nan=True):
+        bad(f'{name}:leading_axis', 'result with a leading axis differs from the 2-d call')
     if name == 'nearest' and not np.all(np.isin(got[1], label)):
       bad('nearest:selection', f'output contains values that are not source values: {got[1].tolist()}')
     if c['equal']:
@@ -398,6 +406,12 @@ def run(ctx):
     if not r.cases:
       raise common.MachineryError(f'{m}: nothing exported')
   one_d, cols, hor = (r.cases for r in runs)
+  cols.sort(key=lambda c: (c['scen'], c['sb'], c['pl'], str(c['hy']), c['g'], str(c['geo'])))
+  hor.sort(key=lambda c: (str(c['src']), str(c['tgt'])))
+  for i, c in enumerate(cols):
+    c['extra'] = i % 4 == 0           # extra call variants on every 4th / 5th case only (cost)
+  for i, c in enumerate(hor):
+    c['extra'] = i % 5 == 0
   # ---- anti-vacuity of the exported set
   nmiss = sum(1 for c in one_d for v in c['safe1'] if v[1] == 0)
   rt_vals = sum(1 for c in cols if c['scen'] in ('p2s', 's2p') for col in c['r2']['affine'] for v in col if v[1] > 0)
@@ -411,10 +425,10 @@ def run(ctx):
     cs.sort(key=lambda c: (c['xp'], c['fp']))
   items = [{'kind': '1d', 'cases': cs} for _, cs in sorted(by_n.items(), key=lambda kv: -len(kv[1]))]
   rest = [{'kind': 'column', 'case': c} for c in cols] + [{'kind': 'horiz', 'case': c} for c in hor]
-  # a handful of column cases also run under jit (the library's own decorators)
-  for it in rest[:: max(1, len(rest) // 12)]:
-    if it['kind'] == 'column':
-      rest.append({'kind': 'column', 'case': dict(it['case'], nojit=False)})
+  # a handful of column cases also run eagerly (jax.disable_jit: no tracing of the decorators)
+  for it in rest[:: max(1, len(rest) // 8)]:
+    if it['kind'] == 'column' and it['case']['scen'] != 'p2s':
+      rest.append({'kind': 'column', 'case': dict(it['case'], nojit=True, extra=False)})
   nproc = 4
   while len(items) % nproc:
     items.append({'kind': '1d', 'cases': []})          # keep the striding aligned
